@@ -134,3 +134,21 @@ Proof.
   destruct (H g Hg) as [k [Hk Hin]]. unfold sites_ok in T. rewrite forallb_forall in T.
   specialize (T _ Hin). unfold site_ok in T. cbn in T. destruct k; try exact T. congruence.
 Qed.
+
+(* when every re-yield site on the path is guarded, a consumer that stops leaves open exactly
+   what an up-going exception leaves open: the unguarded element-yielding children *)
+Lemma leak_down_links_true l : forallb link l = true -> leak_down l = leak_up l.
+Proof.
+  induction l as [|f r IH]; [reflexivity|]. intros H. cbn [forallb] in H. apply andb_true_iff in H as [_ Hr].
+  change (leak_up (f :: r)) with (count_false (sides f) + leak_up r). cbn [leak_down].
+  destruct r as [|c r']; [reflexivity|].
+  assert (Hc : link c = true) by (cbn [forallb] in Hr; now apply andb_true_iff in Hr as [Hc _]).
+  rewrite Hc. now rewrite (IH Hr).
+Qed.
+
+Lemma leak_up_count p : leak_up p = length (filter negb (flat_map sides p)).
+Proof.
+  induction p as [|f r IH]; [reflexivity|].
+  change (leak_up (f :: r)) with (count_false (sides f) + leak_up r). cbn [flat_map].
+  rewrite filter_app, app_length, <- IH. reflexivity.
+Qed.
